@@ -496,9 +496,48 @@ def pers_hist_rule(ctx):
     return res
 
 
+def pers_load_rule(ctx):
+    """PERS-LOAD.  A state-dict load hook of any module class (an override of _load_from_state_dict /
+    load_state_dict / __setstate__, a registered pre- or post-hook) sits between the saved values and the model.
+    It may fill an entry that an old checkpoint lacks -- guarded by the absence of *that same key*, which for a
+    sub-module is `prefix + name` -- but it never replaces, removes or rewrites a saved parameter / persistent
+    buffer, always hands the load on to torch, and does not write the restored attributes afterwards.  A guard
+    that tests the bare name is never true for a nested module: the saved value is then overwritten on every
+    load (same analysis as NORM-LOAD of C14, over every class)."""
+    from .c14 import _load_hook_findings, _travels
+
+    p = ctx.p
+    res = RuleResult("PERS-LOAD", "no state-dict load hook of any module class replaces a saved parameter / persistent-buffer entry (other than filling the very key it found absent), skips the delegation to torch, or writes the restored attributes")
+    total = 0
+    for cls in p.all_classes():
+        if not cls.is_nn_module():
+            continue
+        names = sorted(k for k, ai in p.attrs(cls).items() if _travels(ai))
+        if not names:
+            continue
+        before = len(res.findings)
+        hooks = _load_hook_findings(p, cls, names, res, rule="PERS-LOAD")
+        total += len(hooks)
+        if hooks and len(res.findings) == before:
+            res.ok("%s: %d load hook(s) keep the saved %s" % (cls.name, len(hooks), ", ".join(names[:4])))
+    # one hook reaches several classes through inheritance: report each construct once
+    seen, uniq = set(), []
+    for f in res.findings:
+        k = (f.file, f.qualname, getattr(f, "line", None), f.message.split(":")[0][:40])
+        k = (f.file, f.qualname, getattr(f, "line", None))
+        if k not in seen:
+            seen.add(k)
+            uniq.append(f)
+    res.findings[:] = uniq
+    if total < 1:
+        raise AnalysisIncomplete("PERS-LOAD: no state-dict load hook found (Linear._load_from_state_dict is one on the pinned tree)")
+    res.ok("%d (class, load hook) pairs analysed" % total, nontrivial=False)
+    return res
+
+
 register(
     "C15",
-    [pers_rng_rule, pers_mut_rule, pers_np_rule, pers_call_rule, pers_stale_rule, pers_shape_rule, pers_hist_rule],
+    [pers_rng_rule, pers_mut_rule, pers_np_rule, pers_call_rule, pers_stale_rule, pers_shape_rule, pers_hist_rule, pers_load_rule],
     "Dataflow over constructors and evaluation paths. PERS-RNG: every nn.Module constructor is abstractly interpreted with a "
     "taint domain in which random sources (torch.rand*, randperm, randint, multinomial, init.uniform_/normal_..., np.random, and "
     "repository helpers that return them, found interprocedurally) label their results RNG; every store of an RNG-tainted value "
